@@ -7,9 +7,6 @@ namespace HLV
 /-- exclusion in the lock table: a writer excludes everybody else -/
 def Exclusive (e : Env) : Prop := ∀ x, (e.locks x).writer.isSome → (e.locks x).readers = []
 
-theorem exclusive_of_inv {rank : LockId → Nat} {N : Nat} {s : Sys} {H : Tid → HG}
-    (hi : SysInv rank N s H) (hex : Exclusive s.env) : Exclusive s.env := hex
-
 -- @theorem C02_table_grants_preserve_exclusion : whatever any thread does (any operation, either policy, faulty or not), the table never has a writer together with readers: exclusive and shared holds of one lock never overlap, and there is at most one writer (a field, not a list)
 theorem C02_table_grants_preserve_exclusion (pol : Policy) (e : Env) (t : Tid) (o : Op) (fault : Bool)
     (hex : Exclusive e) (hrel : ∀ m x, o = .rel m x → (e.locks x).holds t m = true) :
@@ -85,15 +82,15 @@ theorem C02_table_grants_preserve_exclusion (pol : Policy) (e : Env) (t : Tid) (
   | poisonGet p => exact hex x
   | mark k => exact hex x
 
--- @theorem C02_sections_only_while_held : in every reachable state of any N-thread system of well-typed programs (either policy), a thread whose next step is a write through a guard or closure argument is the lock's writer, and a thread about to read is its writer or one of its readers
-theorem C02_sections_only_while_held (pol : Policy) (rank : LockId → Nat) (N : Nat) (C : Ctx)
-    (progs : Tid → List Stmt) (hok : ∀ t, ProgOK (some rank) C (progs t))
+-- @theorem C02_sections_only_while_held : in every reachable state of any N-thread system of well-typed programs — ANY lockable collections incl. owned groups and retrying collections, no rank discipline needed — (either policy), a thread whose next step is a write through a guard or closure argument is the lock's writer, and a thread about to read is its writer or one of its readers
+theorem C02_sections_only_while_held (pol : Policy) (N : Nat) (C : Ctx)
+    (progs : Tid → List Stmt) (hok : ∀ t, ProgOK none C (progs t))
     (hidle : ∀ t, N ≤ t → progs t = []) (s : Sys) (hr : Reachable pol (initSys C progs) s)
     (t : Tid) (x : LockId) (w : Option Nat) (k : Resp → Prog Unit Unit)
     (hc : s.thr t = .op (.access x w) k) :
     (w.isSome → (s.env.locks x).writer = some t) ∧
     (w = none → (s.env.locks x).writer = some t ∨ t ∈ (s.env.locks x).readers) := by
-  obtain ⟨H, hi⟩ := reachable_inv pol (initSys_inv rank N C progs hok hidle) hr
+  obtain ⟨H, hi⟩ := reachable_inv pol (initSys_inv none N C progs hok hidle) hr
   have hcode := hi.code t
   rw [hc] at hcode
   have hpre := hcode.1
@@ -116,14 +113,14 @@ theorem C02_sections_only_while_held (pol : Policy) (rank : LockId → Nat) (N :
       exact List.count_pos_iff.1 h
 
 -- @theorem C02_value_changes_only_in_exclusive_sections : the protected datum of a lock changes only by a write step of the thread that is its writer at that moment; every other step of every thread leaves it as it was — so each section observes exactly the value left by the most recent exclusive section of that same lock (no lost, torn or misrouted update)
-theorem C02_value_changes_only_in_exclusive_sections (pol : Policy) (rank : LockId → Nat) (N : Nat)
-    (C : Ctx) (progs : Tid → List Stmt) (hok : ∀ t, ProgOK (some rank) C (progs t))
+theorem C02_value_changes_only_in_exclusive_sections (pol : Policy) (N : Nat)
+    (C : Ctx) (progs : Tid → List Stmt) (hok : ∀ t, ProgOK none C (progs t))
     (hidle : ∀ t, N ≤ t → progs t = []) (s s' : Sys) (hr : Reachable pol (initSys C progs) s)
     (t : Tid) (hs : s.step pol t = some s') (x : LockId)
     (hne : (s'.env.locks x).value ≠ (s.env.locks x).value) :
     ∃ v k, s.thr t = .op (.access x (some v)) k ∧ (s.env.locks x).writer = some t ∧
       (s'.env.locks x).value = v := by
-  have hsec := C02_sections_only_while_held pol rank N C progs hok hidle s hr t x
+  have hsec := C02_sections_only_while_held pol N C progs hok hidle s hr t x
   unfold Sys.step at hs
   cases hc : s.thr t with
   | done a => rw [hc] at hs; cases hs
@@ -192,6 +189,69 @@ theorem C02_value_changes_only_in_exclusive_sections (pol : Policy) (rank : Lock
       apply hne
       rw [henv]
       exact hval o (fun v h => hw ⟨v, h⟩)
+
+/-- the table of every reachable state is exclusive -/
+theorem reachable_exclusive (pol : Policy) (N : Nat) (C : Ctx) (progs : Tid → List Stmt)
+    (hok : ∀ t, ProgOK none C (progs t)) (hidle : ∀ t, N ≤ t → progs t = [])
+    (s : Sys) (hr : Reachable pol (initSys C progs) s) : Exclusive s.env := by
+  induction hr with
+  | init => intro x h; simp [initSys] at h
+  | @step s1 s2 t hr1 hs ih =>
+    obtain ⟨H, hi⟩ := reachable_inv pol (initSys_inv none N C progs hok hidle) hr1
+    unfold Sys.step at hs
+    cases hc : s1.thr t with
+    | done a => rw [hc] at hs; cases hs
+    | unwind e => rw [hc] at hs; cases hs
+    | spin => rw [hc] at hs; cases hs
+    | abort => rw [hc] at hs; cases hs
+    | op o k =>
+      rw [hc] at hs
+      have hrel : ∀ m x, o = .rel m x → (s1.env.locks x).holds t m = true := by
+        intro m x ho
+        subst ho
+        have hcode := hi.code t
+        rw [hc] at hcode
+        have hpos : 0 < (H t).held x m := hcode.1
+        cases m with
+        | excl =>
+          rw [hi.excl x t] at hpos
+          split at hpos
+          · rename_i hw; simp [LockSt.holds, hw]
+          · exact absurd hpos (Nat.lt_irrefl 0)
+        | shared =>
+          rw [hi.shared x t] at hpos
+          simpa [LockSt.holds] using List.count_pos_iff.1 hpos
+      have hex := C02_table_grants_preserve_exclusion pol s1.env t o false ih hrel
+      cases hst : s1.env.step pol t o false with
+      | stepped r e' ev =>
+        rw [hst] at hex
+        simp only [hst, Option.some.injEq] at hs
+        subst hs
+        exact hex
+      | blocked e' =>
+        rw [hst] at hex
+        simp only [hst, Option.some.injEq] at hs
+        subst hs
+        exact hex
+
+-- @theorem C02_no_two_threads_in_conflicting_sections : in every reachable state of any N-thread system of well-typed programs (any collections, either policy, any interleaving), two different threads are never both about to use the datum of the same lock through their guards / closure arguments unless both only read: an exclusive section excludes every other section of that lock
+theorem C02_no_two_threads_in_conflicting_sections (pol : Policy) (N : Nat) (C : Ctx)
+    (progs : Tid → List Stmt) (hok : ∀ t, ProgOK none C (progs t))
+    (hidle : ∀ t, N ≤ t → progs t = []) (s : Sys) (hr : Reachable pol (initSys C progs) s)
+    (t u : Tid) (htu : t ≠ u) (x : LockId) (v : Nat) (w : Option Nat)
+    (k k' : Resp → Prog Unit Unit)
+    (ht : s.thr t = .op (.access x (some v)) k) (hu : s.thr u = .op (.access x w) k') : False := by
+  have h1 := (C02_sections_only_while_held pol N C progs hok hidle s hr t x (some v) k ht).1 rfl
+  have hex := reachable_exclusive pol N C progs hok hidle s hr x (by rw [h1]; rfl)
+  cases w with
+  | some v' =>
+    have h2 := (C02_sections_only_while_held pol N C progs hok hidle s hr u x (some v') k' hu).1 rfl
+    rw [h1] at h2
+    exact htu (Option.some.inj h2)
+  | none =>
+    rcases (C02_sections_only_while_held pol N C progs hok hidle s hr u x none k' hu).2 rfl with h2 | h2
+    · rw [h1] at h2; exact htu (Option.some.inj h2)
+    · rw [hex] at h2; cases h2
 
 -- @theorem C02_guard_positions_are_the_declared_leaves : position i of a guard or closure argument of any shape is the i-th leaf in declared order (through every container, wrapper and nested collection), whatever order the locks were acquired in
 theorem C02_guard_positions_are_the_declared_leaves (m : Mode) (S : Shape) :
